@@ -948,6 +948,17 @@ impl World {
             }
             Top::QueryBattery => {
                 let mut answers = vec![];
+                // a dozen smart queries that fail (no contract at that address) come first: a failed query leaves
+                // nothing behind, the queries after it are answered as if it had never been asked
+                {
+                    let ghost = self.model.api.addr_make("ghost");
+                    if !self.model.st.contracts.contains_key(&ghost) {
+                        for _ in 0..12 {
+                            let r: Result<(u32, Vec<(Binary, Binary)>), _> = self.app.wrap().query_wasm_smart(ghost.clone(), &PuppetQuery::Dump {});
+                            rep.bump(if r.is_err() { "e1/purity/failing_smart_queries_issued" } else { "e1/purity/smart_query_of_nothing_answered" });
+                        }
+                    }
+                }
                 discs.extend(self.query_battery(rep, &mut answers));
                 if let Some(t) = self.transcript.as_mut() {
                     t.push(format!("queries {:?}", answers));
